@@ -175,6 +175,21 @@ class VExecPool:
         if cancel_futures:
             for f in list(self.queue):
                 f.cancel()
+        if wait:
+            # shutdown(wait=True) joins the worker threads: it returns only when every running (and still queued) task has finished
+            w = World.current
+            while self.running or self.queue:
+                self._start_ready()
+                runnable = [f for f in self.running
+                            if w is None or (getattr(f.args[1], "index", None) if len(f.args) > 1 else None) not in w.never]
+                if not runnable:
+                    raise Deadlock("ThreadPoolExecutor.shutdown(wait=True) waits for a branch whose user code is still running")
+                f = runnable[0]
+                if w is not None:
+                    w.finished_order.append(f)
+                self.finish(f)
+                if w is not None:
+                    w.drain_callbacks()
 
     def __enter__(self):
         return self
